@@ -570,6 +570,8 @@ class SchedCondition:
         fired = me.timeout_fired
         me.timeout_fired = False
         notified = self._epoch != epoch
+        if notified:
+            s.last_progress = s.steps  # a waiter got what it was waiting for (the counterpart of a delivered get)
         self._lock.acquire()
         self._lock._count = count
         return notified or not fired
@@ -584,6 +586,10 @@ class SchedCondition:
             result = predicate()
             if not notified:
                 budget = 1
+        if result:
+            s_ = self._sched()
+            if s_ is not None:
+                s_.last_progress = s_.steps  # the condition waited for holds: something was produced for this waiter
         return result
 
     def notify(self, n=1):
